@@ -13,7 +13,9 @@
    X2  `bfvMultiply_decode` (F < 2^33·Q ⇒ decode(x_r) = decode(x_a) ⋆ decode(x_b) mod (X^N+1, t), `Spec.negMul`),
        `bfvMultiply_budget` (budget(r) ≥ min(budget a, budget b, bits Q − 2) − L if `c02x_G ≤ 2^(34+L)`),
        `bfvMultiply_decode_of_budget`, `pred_mul_sound_2x2` (the harness rule is sound for 2 × 2: L = lt + 2k + 8),
-       `pred_mul_sound_general` (sizes ≥ 2: L = lt + (n_a+n_b−2)·k + 8).
+       `pred_mul_sound_general` (sizes ≥ 2: L = lt + (n_a+n_b−2)·k + 8), `bfvMultiply_budget_split` / `bfvMultiply_decode_of_budget_split`
+       (multiplicative part `c02x_G1` and additive BEHZ part separated), `pred_mul_sound_small` (the harness rule's value is a lower
+       bound of the true budget for 2×2, 3×2, 2×3 with ≤ 8 moduli and N ≤ 256), `bfvMultiply_noiseLe` (chaining form of X1).
    X3  `bfvDecrypt_bfvMultiply` (threshold γ·F + 2^34·|q|·Q ≤ 2^33·Q·γ), `bfvDecrypt_bfvMultiply_of_new` (constructors,
        F ≤ (2^33−1)·Q), `bfvDecrypt_bfvMultiply_of_budget`, `pred_mul_decrypt_2x2_of_new`; refusals `…_refuses_1x1`, `…_refuses_ntt`.
    No new hypothesis bundle is introduced: `MulOK`, `DecOK`, `c02w_Window` are derived from the constructors in C02W / C01P
@@ -978,6 +980,89 @@ theorem c02x_budget_arith {Q Va Vb F G L e : Nat} (hQ : 0 < Q) (hF : F ≤ G * m
     Nat.mul_lt_mul_of_pos_left (by omega) (by positivity)
   omega
 
+
+/-- the multiplicative part of the growth factor (`F ≤ G1·max(V_a, V_b) + C`, `C = 2^34·t·|q|·G_r` the additive BEHZ part) -/
+def c02x_G1 (N t K S na nb : Nat) : Nat :=
+  N * ((2 * t * ((2^32 + 2 * K) * c02x_geo S na) + 2^33) + (2 * t * ((2^32 + 2 * K) * c02x_geo S nb) + 2^33)) + 2^33 * N
+
+theorem c02x_F_le_G1_aux (N A B C p V Va Vb : Nat) (h1 : Va ≤ V) (h2 : Vb ≤ V) :
+    N * (A * Vb + B * Va) + p * N * Vb + C ≤ (N * (A + B) + p * N) * V + C := by
+  have e : (N * (A + B) + p * N) * V = N * (A * V + B * V) + p * N * V := by ring
+  rw [e]
+  exact Nat.add_le_add_right (Nat.add_le_add
+    (Nat.mul_le_mul_left N (Nat.add_le_add (Nat.mul_le_mul_left A h2) (Nat.mul_le_mul_left B h1)))
+    (Nat.mul_le_mul_left _ h2)) C
+
+theorem c02x_F_le_G1 (N t K S na nb Va Vb : Nat) :
+    c02x_F N t K S na nb Va Vb
+      ≤ c02x_G1 N t K S na nb * max Va Vb + 2 * 2^33 * t * (K * c02x_geo S (na + nb - 1)) :=
+  c02x_F_le_G1_aux N _ _ _ _ _ Va Vb (le_max_left _ _) (le_max_right _ _)
+
+theorem c02x_bitCount_max2 (a b : Nat) : bitCount (max a b) = max (bitCount a) (bitCount b) := by
+  rcases le_total a b with h | h
+  · rw [max_eq_right h, max_eq_right (bitCount_mono h)]
+  · rw [max_eq_left h, max_eq_left (bitCount_mono h)]
+
+
+/-- arithmetic core of the split budget rule -/
+theorem c02x_budget_arith_split {Q Va Vb F G1 C L1 L2 : Nat} (hQ : 0 < Q) (hF : F ≤ G1 * max Va Vb + C)
+    (hG : G1 ≤ 2^(34 + L1)) (hC : C ≤ 2^(34 + L2))
+    (hβ : L1 + 2 ≤ min (((bitCount Q : Int) - (bitCount Va : Int) - 1).toNat)
+      (((bitCount Q : Int) - (bitCount Vb : Int) - 1).toNat)) (hQ2 : L2 + 3 ≤ bitCount Q) :
+    F < 2^33 * Q ∧ 2 * Va < Q ∧ 2 * Vb < Q := by
+  have hQp := c02x_pow_le_of_bitCount hQ
+  have hla := c02x_bitCount_lt Va
+  have hlb := c02x_bitCount_lt Vb
+  have hlv := c02x_bitCount_lt (max Va Vb)
+  rw [c02x_bitCount_max2] at hlv
+  have pa : 2^(bitCount Va + 1) ≤ 2^(bitCount Q - 1) := Nat.pow_le_pow_right (by norm_num) (by omega)
+  have pb : 2^(bitCount Vb + 1) ≤ 2^(bitCount Q - 1) := Nat.pow_le_pow_right (by norm_num) (by omega)
+  rw [pow_succ] at pa pb
+  refine ⟨?_, by omega, by omega⟩
+  have s1 := Nat.mul_le_mul_right (max Va Vb) hG
+  have s2 : 2^(34 + L1) * max Va Vb < 2^(34 + L1) * 2^(max (bitCount Va) (bitCount Vb)) :=
+    Nat.mul_lt_mul_of_pos_left hlv (by positivity)
+  have s3 : 2^(34 + L1) * 2^(max (bitCount Va) (bitCount Vb)) ≤ 2^32 * 2^(bitCount Q - 1) := by
+    rw [← pow_add, ← pow_add]; exact Nat.pow_le_pow_right (by norm_num) (by omega)
+  have s4 : 2^(34 + L2) ≤ 2^32 * 2^(bitCount Q - 1) := by
+    rw [← pow_add]; exact Nat.pow_le_pow_right (by norm_num) (by omega)
+  have s5 : 2^33 * 2^(bitCount Q - 1) ≤ 2^33 * Q := Nat.mul_le_mul_left _ hQp
+  have e : (2:Nat)^33 * 2^(bitCount Q - 1) = 2^32 * 2^(bitCount Q - 1) + 2^32 * 2^(bitCount Q - 1) := by
+    rw [show (2:Nat)^33 = 2^32 + 2^32 by norm_num, Nat.add_mul]
+  omega
+
+/-- closed forms for small operand sizes (`n_a, n_b ≤ 3`, `n_a + n_b ≤ 5`: 2×2, 3×2, 2×3), `‖s‖₁ ≤ N`, `N ≥ 2`, `t ≤ T`, `|q| ≤ 8` -/
+theorem c02x_G1_small {N t K S T na nb : Nat} (hN : 2 ≤ N) (hT1 : 1 ≤ T) (hT : t ≤ T) (hK : K ≤ 64) (hS : S ≤ N)
+    (ha : na ≤ 3) (hb : nb ≤ 3) : c02x_G1 N t K S na nb ≤ 2^36 * (T * N^3) := by
+  unfold c02x_G1
+  have g3 : c02x_geo S 3 ≤ 2 * N^2 := c02x_geo_bound hS hN (by norm_num)
+  have ga := le_trans (c02x_geo_mono S ha) g3
+  have gb := le_trans (c02x_geo_mono S hb) g3
+  have h4 : 2^32 + 2 * K ≤ 2^32 + 128 := by omega
+  have step : N * ((2 * t * ((2^32 + 2 * K) * c02x_geo S na) + 2^33) + (2 * t * ((2^32 + 2 * K) * c02x_geo S nb) + 2^33))
+      + 2^33 * N
+      ≤ N * ((2 * T * ((2^32 + 128) * (2 * N^2)) + 2^33) + (2 * T * ((2^32 + 128) * (2 * N^2)) + 2^33)) + 2^33 * N := by
+    gcongr
+  refine le_trans step ?_
+  have p3 : 4 * N ≤ N^3 := by
+    have : 4 ≤ N^2 := by nlinarith
+    calc 4 * N ≤ N^2 * N := Nat.mul_le_mul_right _ this
+      _ = N^3 := by ring
+  have q3 : 4 * N ≤ T * N^3 := le_trans p3 (Nat.le_mul_of_pos_left _ hT1)
+  have e : N * ((2 * T * ((2^32 + 128) * (2 * N^2)) + 2^33) + (2 * T * ((2^32 + 128) * (2 * N^2)) + 2^33)) + 2^33 * N
+      = 8 * (2^32 + 128) * (T * N^3) + 3 * 2^33 * N := by ring
+  rw [e]
+  generalize T * N^3 = Y at q3 ⊢
+  omega
+
+theorem c02x_C_small {N t K S T m : Nat} (hN : 2 ≤ N) (hT : t ≤ T) (hK : K ≤ 8) (hS : S ≤ N) (hm : m ≤ 4) :
+    2 * 2^33 * t * (K * c02x_geo S m) ≤ 2^38 * (T * N^3) := by
+  have g4 : c02x_geo S 4 ≤ 2 * N^3 := c02x_geo_bound hS hN (by norm_num)
+  have gm := le_trans (c02x_geo_mono S hm) g4
+  have step : 2 * 2^33 * t * (K * c02x_geo S m) ≤ 2 * 2^33 * T * (8 * (2 * N^3)) := by gcongr
+  refine le_trans step (le_of_eq ?_)
+  ring
+
 /-! ## Property theorems -/
 
 /-- X1, operands (the invariant-noise convention of `Spec.budget`): every phase coefficient splits as `t·x = Q·m + ν` with
@@ -1395,6 +1480,144 @@ theorem pred_mul_decrypt_2x2_of_new {l : Level} {T : Array NTTTables} {q : RNSBa
 /-- `c02x_NoiseLe` is always satisfied by the norm `Spec.budget` is computed from -/
 theorem c02x_noiseLe_norm (t Q : Nat) (ph : Spec.ZPoly) (n : Nat) : c02x_NoiseLe t Q ph n (noiseNorm true t Q ph) :=
   fun j _ => c07l_getD_le true t Q ph j
+
+/-- X2, budget form with the multiplicative and the additive (BEHZ) parts separated (ANY sizes): if `c02x_G1 ≤ 2^(34+L1)` and
+    `2^34·t·|q|·G_r ≤ 2^(34+L2)` then `budget(result) ≥ min(budget a, budget b) − L1 − 1` or `budget(result) ≥ bits(Q) − L2 − 3`
+    (i.e. `budget(result) ≥ min(min(budget a, budget b) − L1 − 1, bits(Q) − L2 − 3)`) -/
+theorem bfvMultiply_budget_split {l : Level} {T : Array NTTTables} (hm : MulOK l T) {a b r : Ct}
+    (ha : ∀ k, k < a.polys.size → RnsCanon l (a.polys.getD k #[]))
+    (hb : ∀ k, k < b.polys.size → RnsCanon l (b.polys.getD k #[]))
+    (hna : a.ntt = false) (hnb : b.ntt = false) (h1 : 1 ≤ a.polys.size) (h2 : 1 ≤ b.polys.size)
+    (hwin : c02w_Window l a.polys.size b.polys.size) (hr : bfvMultiply l T a b = .ok r)
+    {sk : Array Int} (hsk : sk.size = l.n) (L1 L2 : Nat)
+    (hG : c02x_G1 l.n l.t.value l.size (∑ k ∈ range l.n, (sk.getD k 0).natAbs) a.polys.size b.polys.size ≤ 2^(34 + L1))
+    (hC : 2 * 2^33 * l.t.value * (l.size * c02x_geo (∑ k ∈ range l.n, (sk.getD k 0).natAbs) (a.polys.size + b.polys.size - 1))
+      ≤ 2^(34 + L2)) :
+    min (Spec.budget true l.t.value (Spec.prodL (c01p_qvals l)) (Spec.phase (c01p_qvals l) l.n sk a.polys.toList))
+        (Spec.budget true l.t.value (Spec.prodL (c01p_qvals l)) (Spec.phase (c01p_qvals l) l.n sk b.polys.toList))
+      ≤ Spec.budget true l.t.value (Spec.prodL (c01p_qvals l)) (Spec.phase (c01p_qvals l) l.n sk r.polys.toList) + L1 + 1 ∨
+    bitCount (Spec.prodL (c01p_qvals l))
+      ≤ Spec.budget true l.t.value (Spec.prodL (c01p_qvals l)) (Spec.phase (c01p_qvals l) l.n sk r.polys.toList) + L2 + 3 := by
+  have hQ : 0 < Spec.prodL (c01p_qvals l) := by rw [c02x_prodL hm]; exact hm.tool.qwf.prod_pos
+  obtain ⟨r', hr', hsz, -, -, hcanr, -⟩ := bfvMultiply_ok hm ha hb hna hnb h1 h2
+  rw [hr] at hr'
+  obtain rfl := Except.ok.inj hr'
+  have hsr := c02x_phase_size hm sk (by rw [hsz]; omega) (fun k hk => hcanr k (by rw [← hsz]; exact hk))
+  rw [budget_eq, budget_eq, budget_eq]
+  have hnoise := bfvMultiply_noise hm ha hb hna hnb h1 h2 hwin hr hsk
+    (c02x_noiseLe_norm _ _ _ _) (c02x_noiseLe_norm _ _ _ _)
+  have ha1 := c02x_bitCount_half hQ (c02x_noiseNorm_half l.t.value hQ (Spec.phase (c01p_qvals l) l.n sk a.polys.toList))
+  have hb1 := c02x_bitCount_half hQ (c02x_noiseNorm_half l.t.value hQ (Spec.phase (c01p_qvals l) l.n sk b.polys.toList))
+  generalize noiseNorm true l.t.value (Spec.prodL (c01p_qvals l)) (Spec.phase (c01p_qvals l) l.n sk a.polys.toList) = Va at *
+  generalize noiseNorm true l.t.value (Spec.prodL (c01p_qvals l)) (Spec.phase (c01p_qvals l) l.n sk b.polys.toList) = Vb at *
+  have hnr : noiseNorm true l.t.value (Spec.prodL (c01p_qvals l)) (Spec.phase (c01p_qvals l) l.n sk r.polys.toList)
+      ≤ 2^L1 * max Va Vb + 2^L2 := by
+    apply c02x_noiseNorm_le
+    intro j hj
+    obtain ⟨μ, ν, e1, -, e3⟩ := hnoise j (by rw [← hsr]; exact hj)
+    refine le_trans (c02x_v_le_any hQ e1) ?_
+    have h4 := le_trans e3 (c02x_F_le_G1 _ _ _ _ _ _ Va Vb)
+    have h5 := Nat.mul_le_mul_right (max Va Vb) hG
+    have h6 : 2^34 * ν.natAbs ≤ 2^34 * (2^L1 * max Va Vb + 2^L2) := by
+      rw [Nat.mul_add, ← Nat.mul_assoc, ← pow_add, ← pow_add]
+      have : 2^34 * ν.natAbs = 2 * 2^33 * ν.natAbs := by norm_num
+      omega
+    exact Nat.le_of_mul_le_mul_left h6 (by positivity)
+  have hbr : bitCount (noiseNorm true l.t.value (Spec.prodL (c01p_qvals l)) (Spec.phase (c01p_qvals l) l.n sk r.polys.toList))
+      ≤ max (L1 + max (bitCount Va) (bitCount Vb)) (L2 + 1) + 1 := by
+    refine le_trans (bitCount_mono hnr) ?_
+    rw [bitCount_le_iff]
+    have hv := c02x_bitCount_lt (max Va Vb)
+    rw [c02x_bitCount_max2] at hv
+    have k1 : 2^L1 * max Va Vb < 2^(L1 + max (bitCount Va) (bitCount Vb)) := by
+      rw [pow_add]; exact Nat.mul_lt_mul_of_pos_left hv (by positivity)
+    have k2 : 2^(L1 + max (bitCount Va) (bitCount Vb)) ≤ 2^(max (L1 + max (bitCount Va) (bitCount Vb)) (L2 + 1)) :=
+      Nat.pow_le_pow_right (by norm_num) (le_max_left _ _)
+    have k3 : 2^L2 < 2^(L2 + 1) := Nat.pow_lt_pow_right (by norm_num) (by omega)
+    have k4 : 2^(L2 + 1) ≤ 2^(max (L1 + max (bitCount Va) (bitCount Vb)) (L2 + 1)) :=
+      Nat.pow_le_pow_right (by norm_num) (le_max_right _ _)
+    rw [pow_succ]
+    omega
+  omega
+
+/-- X2 from budgets, split form (ANY sizes): `c02x_G1 ≤ 2^(34+L1)`, additive part `≤ 2^(34+L2)`, both operand budgets `≥ L1 + 2`
+    and `bits(Q) ≥ L2 + 3` give exact decoding of the product -/
+theorem bfvMultiply_decode_of_budget_split {l : Level} {T : Array NTTTables} (hm : MulOK l T) (ht : 0 < l.t.value) {a b r : Ct}
+    (ha : ∀ k, k < a.polys.size → RnsCanon l (a.polys.getD k #[]))
+    (hb : ∀ k, k < b.polys.size → RnsCanon l (b.polys.getD k #[]))
+    (hna : a.ntt = false) (hnb : b.ntt = false) (h1 : 1 ≤ a.polys.size) (h2 : 1 ≤ b.polys.size)
+    (hwin : c02w_Window l a.polys.size b.polys.size) (hr : bfvMultiply l T a b = .ok r)
+    {sk : Array Int} (hsk : sk.size = l.n) (L1 L2 : Nat)
+    (hG : c02x_G1 l.n l.t.value l.size (∑ k ∈ range l.n, (sk.getD k 0).natAbs) a.polys.size b.polys.size ≤ 2^(34 + L1))
+    (hC : 2 * 2^33 * l.t.value * (l.size * c02x_geo (∑ k ∈ range l.n, (sk.getD k 0).natAbs) (a.polys.size + b.polys.size - 1))
+      ≤ 2^(34 + L2))
+    (hβ : L1 + 2 ≤ min
+      (Spec.budget true l.t.value (Spec.prodL (c01p_qvals l)) (Spec.phase (c01p_qvals l) l.n sk a.polys.toList))
+      (Spec.budget true l.t.value (Spec.prodL (c01p_qvals l)) (Spec.phase (c01p_qvals l) l.n sk b.polys.toList)))
+    (hQ2 : L2 + 3 ≤ bitCount (Spec.prodL (c01p_qvals l))) :
+    Spec.bfvDecode l.t.value (Spec.prodL (c01p_qvals l)) (Spec.phase (c01p_qvals l) l.n sk r.polys.toList)
+      = Spec.negMul (Spec.bfvDecode l.t.value (Spec.prodL (c01p_qvals l)) (Spec.phase (c01p_qvals l) l.n sk a.polys.toList))
+          (Spec.bfvDecode l.t.value (Spec.prodL (c01p_qvals l)) (Spec.phase (c01p_qvals l) l.n sk b.polys.toList))
+          l.t.value := by
+  have hQ : 0 < Spec.prodL (c01p_qvals l) := by rw [c02x_prodL hm]; exact hm.tool.qwf.prod_pos
+  rw [budget_eq, budget_eq] at hβ
+  obtain ⟨f1, f2, f3⟩ := c02x_budget_arith_split hQ (c02x_F_le_G1 _ _ _ _ _ _ _ _) hG hC hβ hQ2
+  exact bfvMultiply_decode hm ht ha hb hna hnb h1 h2 hwin hr hsk
+    (c02x_noiseLe_norm _ _ _ _) (c02x_noiseLe_norm _ _ _ _) f2 f3 f1
+
+/-- X2, the harness rule `Prog::pred_mul` is SOUND for the directed shapes of the harness (2×2, 3×2, 2×3), for at most 8 moduli,
+    `N = 2^k` with `1 ≤ k ≤ 8`, `‖s‖₁ ≤ N`, `t ≤ 2^lt`:
+    (i) the rule's value `p = min(budget a, budget b) − (lt + 2k + 10 + n_a + n_b)` is a LOWER BOUND of the true budget of the product;
+    (ii) when the rule predicts at least one bit the decoding of the product is exact. -/
+theorem pred_mul_sound_small {l : Level} {T : Array NTTTables} (hm : MulOK l T) (ht : 0 < l.t.value) {a b r : Ct}
+    (ha : ∀ k, k < a.polys.size → RnsCanon l (a.polys.getD k #[]))
+    (hb : ∀ k, k < b.polys.size → RnsCanon l (b.polys.getD k #[]))
+    (hna : a.ntt = false) (hnb : b.ntt = false) (h1 : 2 ≤ a.polys.size) (h2 : 2 ≤ b.polys.size)
+    (h5 : a.polys.size + b.polys.size ≤ 5)
+    (hwin : c02w_Window l a.polys.size b.polys.size) (hr : bfvMultiply l T a b = .ok r)
+    {sk : Array Int} (hsk : sk.size = l.n) (hS : ∑ k ∈ range l.n, (sk.getD k 0).natAbs ≤ l.n)
+    (hk1 : 1 ≤ l.k) (hk8 : l.k ≤ 8) (hK8 : l.size ≤ 8) {lt : Nat} (hlt : l.t.value ≤ 2^lt) :
+    (∀ p, p + (lt + 2 * l.k + 10 + (a.polys.size + b.polys.size)) ≤ min
+        (Spec.budget true l.t.value (Spec.prodL (c01p_qvals l)) (Spec.phase (c01p_qvals l) l.n sk a.polys.toList))
+        (Spec.budget true l.t.value (Spec.prodL (c01p_qvals l)) (Spec.phase (c01p_qvals l) l.n sk b.polys.toList)) →
+      p ≤ Spec.budget true l.t.value (Spec.prodL (c01p_qvals l)) (Spec.phase (c01p_qvals l) l.n sk r.polys.toList)) ∧
+    (1 + (lt + 2 * l.k + 10 + (a.polys.size + b.polys.size)) ≤ min
+        (Spec.budget true l.t.value (Spec.prodL (c01p_qvals l)) (Spec.phase (c01p_qvals l) l.n sk a.polys.toList))
+        (Spec.budget true l.t.value (Spec.prodL (c01p_qvals l)) (Spec.phase (c01p_qvals l) l.n sk b.polys.toList)) →
+      Spec.bfvDecode l.t.value (Spec.prodL (c01p_qvals l)) (Spec.phase (c01p_qvals l) l.n sk r.polys.toList)
+        = Spec.negMul (Spec.bfvDecode l.t.value (Spec.prodL (c01p_qvals l)) (Spec.phase (c01p_qvals l) l.n sk a.polys.toList))
+            (Spec.bfvDecode l.t.value (Spec.prodL (c01p_qvals l)) (Spec.phase (c01p_qvals l) l.n sk b.polys.toList))
+            l.t.value) := by
+  have hK : l.size ≤ 64 := by omega
+  have hN2 : 2 ≤ l.n := by
+    rw [hm.lwf.npow]
+    calc 2 = 2^1 := rfl
+      _ ≤ 2^l.k := Nat.pow_le_pow_right (by norm_num) hk1
+  have hTN : (2:Nat)^lt * l.n^3 = 2^(lt + 3 * l.k) := by
+    rw [hm.lwf.npow, ← pow_mul, ← pow_add]; congr 1; ring
+  have hG : c02x_G1 l.n l.t.value l.size (∑ k ∈ range l.n, (sk.getD k 0).natAbs) a.polys.size b.polys.size
+      ≤ 2^(34 + (lt + 3 * l.k + 2)) := by
+    refine le_trans (c02x_G1_small hN2 (Nat.one_le_two_pow) hlt hK hS (by omega) (by omega)) ?_
+    rw [hTN, ← pow_add]
+    exact Nat.pow_le_pow_right (by norm_num) (by omega)
+  have hC : 2 * 2^33 * l.t.value * (l.size * c02x_geo (∑ k ∈ range l.n, (sk.getD k 0).natAbs) (a.polys.size + b.polys.size - 1))
+      ≤ 2^(34 + (lt + 3 * l.k + 4)) := by
+    refine le_trans (c02x_C_small hN2 hlt hK8 hS (by omega)) ?_
+    rw [hTN, ← pow_add]
+    exact Nat.pow_le_pow_right (by norm_num) (by omega)
+  have hQ : 0 < Spec.prodL (c01p_qvals l) := by rw [c02x_prodL hm]; exact hm.tool.qwf.prod_pos
+  have hha := c02x_bitCount_half hQ (c02x_noiseNorm_half l.t.value hQ (Spec.phase (c01p_qvals l) l.n sk a.polys.toList))
+  constructor
+  · intro p hp
+    have hsp := bfvMultiply_budget_split hm ha hb hna hnb (by omega) (by omega) hwin hr hsk _ _ hG hC
+    rw [budget_eq, budget_eq, budget_eq] at hsp
+    rw [budget_eq, budget_eq] at hp
+    rw [budget_eq]
+    omega
+  · intro hβ
+    refine bfvMultiply_decode_of_budget_split hm ht ha hb hna hnb (by omega) (by omega) hwin hr hsk _ _ hG hC (by omega) ?_
+    rw [budget_eq, budget_eq] at hβ
+    omega
 
 /-- X1, chaining form: the invariant noise of the product (the quantity `Spec.budget` measures) is bounded by `F / 2^34`, so the
     result can be fed to the next `bfvMultiply_noise` -/
